@@ -233,6 +233,7 @@ MCModeFiles == {%s}
     for sc in scenarios:
         sc['noxdg'] = sc['id'] % 5 == 2
         sc['tz'] = ('', '', '', 'Pacific/Kiritimati', '', 'Etc/GMT+12', '')[sc['id'] % 7]
+        sc['path'] = (sc['id'] // 2) % 11 if sc['id'] % 2 else 0      # characters in the path of the telemetry directory (harness: pathNames)
     ctx.log('pairs %d, behaviours %d' % (npairs, nbeh))
     ctx.sample({'kind': 'pair', 'cmd': scenarios[0]['cmds'], 'modeFile': scenarios[0]['init']['modeFile'], 'names': [e['loc'] + '/' + e['name'] for e in scenarios[0]['init']['tree']][:12]})
     ctx.sample({'kind': 'behaviour', 'cmds': scenarios[npairs]['cmds'], 'modeFile': scenarios[npairs]['init']['modeFile']})
